@@ -136,6 +136,19 @@ SizeExact == \A a \in 1..Len(als) : (als[a].cfg \in {"similarity", "similarity_m
                      uu(i) == RAdd(RSq(U(f,i)[1]), RSq(U(f,i)[2])) IN
                  /\ f.cT = Centroid(T)
                  /\ RMul(f.k2, RSum(uu, 1, N)) = Norm(Nrm2(Cen(T)), N * N)
+\* complete-graph mode (VIEW NoHist, no depth bound, one initial state per configuration): every reachable <<vals, als>>;
+\* the history-phrased invariant is checked in its step form on every transition; one history per transition is emitted
+NoHist == <<vals, als>>
+InitOne == \E c \in Configs :
+          LET v1 == CHOOSE v \in DOMAIN Targets : OK(c, Targets[v]) /\ \A w \in DOMAIN Targets : OK(c, Targets[w]) => v <= w
+              v2 == (v1 % Len(Targets)) + 1 IN
+          /\ vals = <<v1, v2>>
+          /\ als = <<[cfg |-> c, tobj |-> 1, pval |-> 0, fit |-> FitFor(c, v1), fitval |-> v1]>>
+          /\ hist = <<[op |-> "build", a |-> 1, o |-> 1, v |-> v1, err |-> "", als |-> View(als, vals), vals |-> vals]>>
+SpecOne == InitOne /\ [][Next]_vars
+AfterSetTargetInSyncStep == [][ (hist' # hist /\ hist'[Len(hist')].op = "set_target" /\ hist'[Len(hist')].err = "") =>
+                                  LET a == hist'[Len(hist')].a IN als'[a].tobj # 0 /\ als'[a].fitval = vals'[als'[a].tobj] ]_vars
+EmitTrans == CSVWrite("%1$s", <<ToJson(hist')>>, IOEnv.OUT_FILE)
 Emit == (Len(hist) = D) => CSVWrite("%1$s", <<ToJson(hist)>>, IOEnv.OUT_FILE)
 EmitInit == (Len(hist) = 1) => CSVWrite("%1$s", <<ToJson([src |-> Src, targets |-> Targets])>>, IOEnv.OUT_FILE)
 =======================================================================
